@@ -21,6 +21,21 @@ PROPS = {
                       "Executor.GetTask are run on generated tables over an alphabet with regexp metacharacters and must equal the model.",
         "level_note": "Trusted: Lean kernel; harness canonicalisation; Go regexp semantics for the quoted pattern; fuzzy suggestion is an oracle.",
     },
+    "C14": {
+        "lean": "Props.C14",
+        "domains": [{"name": "sched"}],
+        "trusted": ["the verif-tagged event-log hooks in /repo (verifhook.Ev calls in task.go) record each action at the point documented in "
+                    "verifhook/hook_on.go; guard outcomes / exit codes of the generated Taskfile are what the generator says (a wrong rendering "
+                    "shows up as a rejected trace, i.e. an alarm, not silently)"],
+        "assumptions": ["commands are shell builtins (`exit N`); the Go scheduler is perturbed by seeded delays at hook points, not controlled"],
+        "level_text": "Theorems over every trace the executor LTS accepts (all programs, flags, failing positions, interleavings, cancellations): deferred "
+                      "entries start in strictly decreasing index order (reverse registration order, none twice); when an activation has finished its "
+                      "deferred part it has run exactly the registered entries reversed; deferred results never change the task's result or EXIT_CODE; "
+                      "EXIT_CODE seen = status of the failing command. Tie: the event log of the real executor (verif hooks) for generated task graphs "
+                      "is replayed through the same `replay`; every log must be accepted and pass the same monitors.",
+        "level_note": "Trusted: Lean kernel; hook placement; harness rendering of abstract programs; schedule coverage is whatever seeded jitter reaches "
+                      "(the theorem, not the sampling, covers all interleavings of the model).",
+    },
 }
 
 
